@@ -15,7 +15,11 @@ def render(seq, paths, rng):
              "@quantum function m1(qubit a) -> bit { bit t = measure a; return t; }",
              "@quantum function r1(qubit a) -> void { reset a; }",
              "@quantum function gA(qubit[] rs, int i) -> void { x(rs[i]); }",
-             "function main() -> void {", "  qubit[2] r;"]
+             "function main() -> void {"]
+    outer = rng.random() < 0.6
+    if outer:
+        lines.append("  qubit p0;")
+    lines.append("  qubit[2] r;")
     pos = {}
     for k, (op, q) in enumerate(seq):
         path = paths[k]
@@ -36,7 +40,44 @@ def render(seq, paths, rng):
             s = "measure r;"
         lines.append("  " + s)
         pos[k] = ln
+    if outer:
+        lines.append("  h(p0);")          # never measured: must not be refused, whatever happened to the array
     lines.append("}")
+    return "\n".join(lines), pos
+
+
+def render_obj(seq, paths, rng):
+    """the two qubits are fields a, b of an object created in an inner block; reached as o.a, through methods using the bare
+    field name / this.a, or passed to a helper function; the object dies (with whatever flags its fields have) at the block end."""
+    f = ["a", "b"]
+    lines = ["@quantum function g1(qubit a) -> void { h(a); }",
+             "@quantum function m1(qubit a) -> bit { bit t = measure a; return t; }",
+             "@quantum function r1(qubit a) -> void { reset a; }",
+             "class H { public qubit a; public qubit b; public constructor() -> H = default; @quantum public function ga() -> void { h(a); } "
+             "@quantum public function gb() -> void { h(this.b); } @quantum public function ma() -> bit { bit t = measure this.a; return t; } "
+             "@quantum public function mb() -> bit { bit t = measure b; return t; } public function ra() -> void { reset a; } "
+             "public function rb() -> void { reset this.b; } }",
+             "function main() -> void {", "  qubit p0;", "  {", "  H o = new H();"]
+    pos = {}
+    for k, (op, q) in enumerate(seq):
+        path = paths[k]
+        other = 1 - q
+        ln = len(lines) + 1
+        if op == "gate":
+            s = {"elem": "h(o.%s);" % f[q], "param": "g1(o.%s);" % f[q], "arrparam": "o.g%s();" % f[q]}[path]
+        elif op == "cxa":
+            s = "cx(o.%s, o.%s);" % (f[q], f[other])
+        elif op == "measure":
+            s = "measure o.%s;" % f[q]
+        elif op == "mexpr":
+            s = {"elem": "bit b%d = measure o.%s;" % (k, f[q]), "param": "bit b%d = m1(o.%s);" % (k, f[q]),
+                 "arrparam": "bit b%d = o.m%s();" % (k, f[q])}[path]
+        else:
+            s = {"elem": "reset o.%s;" % f[q], "param": "r1(o.%s);" % f[q], "arrparam": "o.r%s();" % f[q]}[path]
+        lines.append("  " + s)
+        pos[k] = ln
+    # the object dies here; a never-measured outer qubit must stay usable afterwards
+    lines += ["  }", "  h(p0);", "}"]
     return "\n".join(lines), pos
 
 
@@ -67,7 +108,8 @@ def run(chk):
                 "parameter, qubit[] parameter); expected: the first op that touches a qubit whose last {declare, reset, measure} was a "
                 "measure is refused with a located runtime error on that line, nothing else is refused. distinct non-trivial = sequences "
                 "containing at least one measure")
-    chk.assumptions = ["object-field access paths are exercised with the class fragment (C08)"]
+    chk.assumptions = ["object-field sequences have no Lean evaluator reference (classes are outside the evaluator model): they are judged by the "
+                       "flag-machine oracle only"]
     import translate_tables
     chk.prove(generated=[translate_tables.keywords, translate_tables.binding_table])
     rng = chk.rng
@@ -85,6 +127,10 @@ def run(chk):
         src, pos = render(seq, paths, rng)
         progs.append((src, evallib.gen_draws(rng, len(seq) + 2)))
         meta.append((seq, pos))
+        if not any(op == "marr" for op, _ in seq):
+            src, pos = render_obj(seq, paths, rng)
+            progs.append((src, evallib.gen_draws(rng, len(seq) + 2)))
+            meta.append((seq, pos))
     chk.exhaustive = True
     lines, impl, model, incident = evallib.run_programs(progs)
     dis = bad = None
